@@ -172,6 +172,23 @@ def run_with(dests_spec, body, res, label, shape):
     return tape
 
 
+class EqualRecorder(object):
+    """Healthy destination with value equality: all instances compare equal (like a dataclass without fields)."""
+
+    def __init__(self, tape, name):
+        self.tape = tape
+        self.name = name
+
+    def __eq__(self, other):
+        return isinstance(other, EqualRecorder)
+
+    def __hash__(self):
+        return 7
+
+    def __call__(self, m):
+        self.tape.add("msg", dest=self.name, m=dict(m))
+
+
 def part_prebuffered(spec, res):
     """Messages logged before the first add_destinations are re-delivered by that call: faults on them count like any other."""
     rng = random.Random("%s:C08:pre:%d" % (spec["seed"], spec["i"]))
@@ -197,13 +214,34 @@ def part_prebuffered(spec, res):
         dests.append(obj)
     problems = []
     it = Interp(tape=tape)
-    try:
+    # two further destinations that compare EQUAL to each other (value objects) but are distinct: both must be served
+    twins = [EqualRecorder(tape, "twin0"), EqualRecorder(tape, "twin1")]
+
+    def body():
         it.run(p1)  # buffered: no destination exists yet
         add_destinations(*dests)
+        add_destinations(twins[0])
+        add_destinations(twins[1])
         it.forest = []
         it.run(p2)
-    except BaseException as e:
+    # run as the only registered thread of a schedule: if the hand-over blocks on a lock it holds itself, the scheduler
+    # reports a deadlock instead of the case hanging
+    st, errs = sched.run_schedule({"order": ["main"], "changes": []}, {"main": body}, timeout=120.0)
+    for e in errs.values():
         problems.append("logging raised %r" % (e,))
+    if st["deadlock"]:
+        problems.append("logging / add_destinations deadlocked: %s" % st["deadlock"])
+    elif st["aborted"]:
+        res["inconclusive"] = "prebuffered run abandoned: %s" % st["aborted"]
+    for tw in twins:
+        try:
+            remove_destination(tw)
+        except ValueError:
+            pass
+    t0 = [key(e["m"]) for e in tape.entries if e["k"] == "msg" and e["dest"] == "twin0"]
+    t1 = [key(e["m"]) for e in tape.entries if e["k"] == "msg" and e["dest"] == "twin1"]
+    if not st["aborted"] and (not t1 or t1 != t0[len(t0) - len(t1):]):
+        problems.append("of two equal-but-distinct destinations registered one after the other, the second received %d messages, the first %d" % (len(t1), len(t0)))
     problems.extend(v["msg"] for v in it.violations if v["msg"].startswith("eliot API call"))
     failures, hits_report = account(tape, names, "ref", problems)
     c = res["counters"]
